@@ -33,6 +33,8 @@ def configs(run, d):
         ("pass", base + b"output = file:" + out.encode() + b"\nfilter_chain = \"only_uid:0;only_root\"\n"),
         ("errlog", base + b"error_logging = yes\noutput = file:/nonexistent/dir/out\nmessage_format = \"%{nosuch} %{cmdline}\"\n"),
         ("garbage", b"\xff\xfe[snoopy\nmessage_format = %{\noutput = nosuch:zzz\n= = =\n"),
+        # both limits at their maximum, calls issued from a thread with a 192 KiB stack: the library's stack use must not grow with the limits
+        ("biglimits-smallstack", base + b"log_message_max_length = 1048575\ndatasource_message_max_length = 1048575\noutput = file:" + out.encode() + b"\nmessage_format = \"%{cmdline} %{env_all}\"\n"),
         ("smallmsg", base + b"log_message_max_length = 255\ndatasource_message_max_length = 255\noutput = file:" + out.encode() + b"\n"),
     ]
 
@@ -100,6 +102,8 @@ def check(run):
                 script.append(call_line(api, path, argv, envp, mode, ret, err))
                 plan.append((api, path, argv, envp, mode, ret, err))
                 k += 1
+        if name.endswith("smallstack"):
+            script.insert(7, "stack\t192")
         if ci % 4 == 1:
             script.insert(7, "env\t~")    # environ == NULL in this process
         res = run_script(run, lib, script, "c01-%d" % ci, timeout=300)
